@@ -139,6 +139,14 @@ def step (t : Tree) (cur : Ptr) (it : PItem) : Option Ptr :=
         if 0 ≤ j ∧ j < l then some (j.toNat :: cur) else none
       else none
 
+/-- `keys` of a compound decode value (JQValueKeys): the names of a struct's children (gojqx lists them
+    sorted; the order is not part of the property), the positions of an array's children -/
+def childKeys (v : Tree) : List PItem :=
+  match v.info.kind with
+  | .struct => v.kids.map (fun c => .inl c.info.name)
+  | .array => (List.range v.kids.length).map (fun (k : Nat) => (.inr (k : Int) : PItem))
+  | .leaf => []
+
 /-- `root | getpath(path)` -/
 def resolve (t : Tree) (path : Path) : Option Ptr := path.foldlM (step t) []
 
